@@ -6,6 +6,7 @@ import (
 	"fmt"
 	"go/parser"
 	"go/token"
+	"io"
 	"os"
 	"os/exec"
 	"path/filepath"
@@ -189,6 +190,15 @@ func c19Eval(r *core.Run, c *c19Case) {
 	}
 	defer os.RemoveAll(bp.dir)
 	report := func(key, what string) { r.Violation(key, what+"\n--- traceback head:\n"+b2s(bp.trace, 600), "prog", c) }
+	if c.Idx%5 == 2 && c.Mismatch == "" {
+		// the traceback is followed by a goroutine with a malformed frame: the snapshot is handed out together with a
+		// parse error and its frames are to be typed like any other
+		t := bytes.TrimRight(bytes.TrimSuffix(bytes.TrimRight(bp.trace, "\n"), []byte("exit status 2")), "\n")
+		bp.trace = append(append([]byte{}, t...), []byte("\n\ngoroutine 99999 [running]:\nmain.broken(0x1)\nthis is not a file line\n")...)
+		if _, _, _, err := scanAll(bp.trace, c19Opts(bp.goroot, false, c.Naming)); err != nil && err != io.EOF {
+			r.Count("snapshots_returned_with_an_error", 1)
+		}
+	}
 	off, _, _, _ := scanAll(bp.trace, c19Opts(bp.goroot, false, c.Naming))
 	if off == nil {
 		report("nosnapshot", "real traceback not parsed")
